@@ -470,7 +470,7 @@ def eval_exact(t, env=None):
     import math
     env = env or {}
     h = t[0]
-    if t in env:
+    if h == "sym" and t in env:
         return env[t]
     if h == "num":
         return t[1]
@@ -513,6 +513,16 @@ def eval_exact(t, env=None):
             if t[1] == "mod":
                 return args[0] % args[1]
         raise NotEvaluable("call of %s" % t[1])
+    if h == "idx":
+        i = eval_exact(t[2], env)
+        b = t[1]
+        if b[0] in ("list", "tuple") and i.denominator == 1 and -(len(b) - 1) <= i < len(b) - 1:
+            return eval_exact(b[1:][int(i)], env)
+        if b[0] == "dict":
+            for k, v in b[1]:
+                if k[0] == "num" and k[1] == i:
+                    return eval_exact(v, env)
+        raise NotEvaluable("subscript out of range / of a non-literal")
     if h == "sym":
         raise NotEvaluable("free symbol %s" % t[1])
     raise NotEvaluable("term kind %s" % (h,))
